@@ -10,7 +10,7 @@ CHECKS = {
             {"pkg": "Havoc/pkg/agent", "with": AGENT_WITH, "entries": ["H_c01_dispatch"], "shards": 16},
             {"pkg": "Havoc/pkg/handlers", "with": ["Havoc/pkg/agent"] + AGENT_WITH, "entries": ["H_c01_request_raw"], "shards": 8},
             {"pkg": "Havoc/pkg/handlers", "with": ["Havoc/pkg/agent"] + AGENT_WITH, "entries": ["H_c01_request_hdr"], "shards": 4},
-            {"pkg": "Havoc/pkg/agent", "with": AGENT_WITH, "entries": ["H_c01_pivot_nested"], "shards": 2},
+            {"pkg": "Havoc/pkg/agent", "with": AGENT_WITH, "entries": ["H_c01_pivot_nested"], "shards": 2, "flags": ["-loop-bound", "600"]},
             {"pkg": "Havoc/cmd/server", "with": SRV_WITH, "entries": ["H_c01_service_lookup"]},
             {"pkg": "Havoc/pkg/agent", "with": AGENT_WITH + ["Havoc/pkg/common/parser@lazy"], "entries": ["H_c01_dispatch_lazy"], "shards": 31, "flags": ["-loop-cut", "TaskDispatch=2"]},
             {"pkg": "Havoc/pkg/agent", "with": AGENT_WITH, "entries": ["H_c01_dispatch_deep"], "shards": 64, "flags": ["-conc-limit", "2", "-time", "240s", "-loop-cut", "TaskDispatch=3"], "disabled": True},
@@ -23,7 +23,7 @@ CHECKS = {
     "C05": {
         "groups": [
             {"pkg": "Havoc/pkg/agent", "with": AGENT_WITH, "entries": ["H_c05_gate"], "shards": 16},
-            {"pkg": "Havoc/pkg/agent", "with": AGENT_WITH, "entries": ["H_c05_completed", "H_c05_final"]},
+            {"pkg": "Havoc/pkg/agent", "with": AGENT_WITH, "entries": ["H_c05_completed", "H_c05_final", "H_c05_cross"]},
         ],
         "bounds": "gate: every command id + one arbitrary other id, body 0..8 bytes, 0..2 outstanding ids on the receiver, the callback id outstanding on another agent; RequestCompleted: 0..4 outstanding ids (duplicates allowed); final: 11 single-package commands, body 0..12 bytes.",
         "outside": "bodies beyond the bound; which callbacks are 'final' for multi-package commands",
@@ -98,9 +98,19 @@ CHECKS = {
         "outside": "SQLite itself (TS_Links is a set-of-pairs model of the statements in pkg/db/links.go); more than 3 agents",
         "min_completed": 3,
     },
+    "C02": {
+        "groups": [
+            {"pkg": "Havoc/pkg/agent", "with": ["Havoc/pkg/logr", "Havoc/pkg/common/parser", "Havoc/pkg/socks"], "entries": ["H_c02_build"], "flags": ["-tags", "uf_aes"], "shards": 2},
+            {"pkg": "Havoc/pkg/agent", "with": ["Havoc/pkg/logr", "Havoc/pkg/common/parser", "Havoc/pkg/socks"], "entries": ["H_c02_prepare"], "flags": ["-tags", "uf_aes"], "shards": 10},
+        ],
+        "bounds": "framing: batches of 1..2 tasks with 0..2 arguments of the 11 supported Go types (strings/byte slices of 0..2 arbitrary bytes), arbitrary command and request ids, AES-CTR as uninterpreted key stream; TaskPrepare: EXIT, SLEEP (1..2 digit delay/jitter), JOB (4 sub-commands, 1..2 digit id), TRANSFER (4 sub-commands, any 8-hex-digit file id), PROC kill/modules (1..3 digit pid), PROC_LIST, PPIDSPOOF, PIVOT list/disconnect (any 8-hex-digit id); task id any 8 hex digits (EXIT) or fixed.",
+        "outside": "all other commands and sub-commands (file/BOF/assembly based, NET, TOKEN, CONFIG, KERBEROS, socks, FS), non-ASCII and long parameter strings, batches of more than 2 tasks",
+        "min_completed": 3,
+    },
     "C08": {
         "groups": [
             {"pkg": "Havoc/pkg/agent", "with": ["Havoc/pkg/logr", "Havoc/pkg/common/parser", "Havoc/pkg/socks"], "entries": ["H_c08_chain"], "flags": ["-tags", "uf_aes"], "shards": 3},
+            {"pkg": "Havoc/pkg/agent", "with": ["Havoc/pkg/logr", "Havoc/pkg/common/parser", "Havoc/pkg/socks"], "entries": ["H_c08_relay"], "flags": ["-tags", "uf_aes"]},
         ],
         "bounds": "chains of 1..3 SMB hops below a direct agent; every agent id with an arbitrary top byte (ids >= 0x80000000 included) and fixed distinct low 24 bits; task = arbitrary command / request id / int argument / byte argument of 0..2 bytes; AES-CTR as uninterpreted per-key stream.",
         "outside": "depth > 3; fully arbitrary ids (thorough tier: target id fully symbolic); upward relay is covered by C05/C01 harnesses with AES as identity",
@@ -127,7 +137,7 @@ LEVELS = {
     "C05": {
         "groups": [
             {"pkg": "Havoc/pkg/agent", "with": AGENT_WITH, "entries": ["H_c05_gate"], "shards": 16},
-            {"pkg": "Havoc/pkg/agent", "with": AGENT_WITH, "entries": ["H_c05_completed", "H_c05_final"]},
+            {"pkg": "Havoc/pkg/agent", "with": AGENT_WITH, "entries": ["H_c05_completed", "H_c05_final", "H_c05_cross"]},
         ],
         "bounds": "gate: every command id + one arbitrary other id, body 0..8 bytes, 0..2 outstanding ids on the receiver, the callback id outstanding on another agent; RequestCompleted: 0..4 outstanding ids (duplicates allowed); final: 11 single-package commands, body 0..12 bytes.",
         "outside": "bodies beyond the bound; which callbacks are 'final' for multi-package commands",
@@ -157,6 +167,8 @@ LEVELS = {
             "note": "The JSON decoder is modelled by its result type; sockets and timing are outside; service endpoint not covered in this revision."},
     "C09": {"text": "Bounded symbolic execution of the real link bookkeeping (cmd/server Died/UnlinkFromAll/LinkAdd/LinkRemove, TaskDispatch SMB connect/disconnect) from every forest over a 3-agent universe; the forest invariant relating parent pointers, link lists and link rows is asserted after one event (inductive step).",
             "note": "Database = relational model of the four SQL statements in pkg/db/links.go; websocket/JSON stubbed."},
+    "C02": {"text": "Bounded symbolic execution of the real BuildPayloadMessage and of TaskPrepare -> queue -> check-in reply for a stated subset of commands against a reference reader that mirrors Parser.c/Command.c; parameter digits, ids, argument values and types are symbolic; encryption is an uninterpreted key stream so a body sent in clear is a counterexample.",
+            "note": "Covers the framing layer fully within the bound and 10 command forms; the remaining commands are outside. Reference read order transcribed from Command.c (DESIGN.md appendix A)."},
     "C08": {"text": "Bounded symbolic execution of the real PivotAddJob/BuildPayloadMessage wrapping for chains of 1..3 hops, unwrapped by a reference implementation of the Demon's pipe framing with each hop's own key; AES-CTR is an uninterpreted key stream so a layer encrypted under the wrong key cannot decode.",
             "note": "Trusted: go/ssa, gosx, z3 (QF_UFBV), the reference decoder transcribed from Command.c/TransportSmb.c."},
     "C04": {"text": "Bounded symbolic execution of GetQueuedJobs/AddJobToQueue/UploadMemFileInChunks against a FIFO reference; sizes are symbolic so the 30 MB boundary and chunk boundaries are decided by the solver, not sampled.",
